@@ -1432,6 +1432,11 @@ class FnAnalysis:
                                 locks.append(lid)
                     if not locks:
                         self.prog.gaps.append(f"lock object without recognisable mutex at {self.cur['file']}:{v.get('l')}")
+                    recursive = "recursive" in ((v.get("t") or "") + (v.get("dt") or "")) or (
+                        ctor is not None and any("recursive" in self.ty(self.unwrap(a))
+                                                 for a in (self.unwrap(ctor).get("in", []) or [])))
+                    # acquisition event (for the lock-order graph): which locks are taken here, lexically under `new`
+                    self.events.append(("lock", tuple(locks), recursive, v.get("f") or self.cur["file"], v.get("l"), new))
                     new = new | frozenset(locks)
                 else:
                     self.visit_stmt(v, new)
@@ -1468,6 +1473,7 @@ class Table:
         self.gaps: list[str] = []
         self.reached: dict[str, set] = {}
         self.callbacks: dict[str, set] = {}
+        self.lock_edges: dict[tuple, list] = {}  # (held lock, acquired lock) -> [sites]
         self.shared_access: set = set()        # locations with at least one access not through the creating variable
         self.confined: list[str] = []
 
@@ -1555,6 +1561,14 @@ def build_table(prog: Program, roles: dict, location_filter) -> Table:
                 locks = held | ev[5]
                 if typ == "acc":
                     _row(ev[1], ev[2], ev[3], ev[4], locks, key, confined=len(ev) > 6 and ev[6])
+                elif typ == "lock":
+                    for l in ev[1]:
+                        if l in locks:
+                            if not ev[2]:   # a non-recursive mutex taken again by its owner
+                                _edge(l, l, ev[3], ev[4], key)
+                            continue
+                        for h in locks:
+                            _edge(h, l, ev[3], ev[4], key)
                 elif typ == "pacc":
                     for l in resolve((P,) + tuple(ev[1]), env):  # resolved through the caller's binding
                         _row(l, ev[2], ev[3], ev[4], locks, key)
@@ -1585,6 +1599,12 @@ def build_table(prog: Program, roles: dict, location_filter) -> Table:
                                         f"{Path(ev[3] or '?').name}:{ev[4]} (role {role}); treated as not installed in the daemon")
                     for t in sorted(targets):
                         go(t, locks, {}, depth + 1)
+
+        def _edge(h, l, f, line, key):
+            sites = tab.lock_edges.setdefault((h, l), [])
+            site = f"{role}: {Path(f or '?').name}:{line} in {key.replace('ephemeralnet::', '')}"
+            if len(sites) < 3 and site not in sites:
+                sites.append(site)
 
         def resolve(r, env):
             if r[0] == F:
